@@ -1,0 +1,589 @@
+//go:build verif
+
+package tbtc
+
+// ---------------------------------------------------------------------------
+// C47: submission slots (tECDSA DKG result, approval, inactivity claim)
+
+//@ ghost observedNotAwaiting bool
+//@ ghost chainNonce int
+
+//@ assume func Chain.BlockCounter
+//@   ensures err == nil ==> result0 != nil
+
+//@ assume func DistributedKeyGenerationChain.GetDKGState
+//@   modifies ghost.observedNotAwaiting
+//@   ensures ghost.observedNotAwaiting == (old(ghost.observedNotAwaiting) || (err == nil && result0 != AwaitingResult))
+
+//@ assume func DistributedKeyGenerationChain.SubmitDKGResult
+//@   requires [still-awaiting-result] !ghost.observedNotAwaiting
+
+//@ assume func InactivityClaimChain.GetInactivityClaimNonce
+//@   modifies ghost.chainNonce, alloc
+//@   ensures err == nil ==> result0 != nil && ghost.chainNonce == bigval(result0)
+
+//@ assume func InactivityClaimChain.SubmitInactivityClaim
+//@   requires [nonce-not-superseded] bigval(nonce) >= ghost.chainNonce
+
+// The block-wait function stored in the submitters is node.waitForBlockHeight
+// (verified below with the same contract).
+//@ assume func dkgResultSubmitter.waitForBlockFn
+//@   modifies ghost.now, ghost.ctxDone
+//@   ensures ghost.now >= old(ghost.now)
+//@   ensures forall c ref :: c in old(ghost.ctxDone) ==> c in ghost.ctxDone
+//@   ensures result == nil ==> ghost.now >= arg1 || arg0 in ghost.ctxDone
+//@ assume func inactivityClaimSubmitter.waitForBlockFn
+//@   modifies ghost.now, ghost.ctxDone
+//@   ensures ghost.now >= old(ghost.now)
+//@   ensures forall c ref :: c in old(ghost.ctxDone) ==> c in ghost.ctxDone
+//@   ensures result == nil ==> ghost.now >= arg1 || arg0 in ghost.ctxDone
+//@ assume func dkgExecutor.waitForBlockFn
+//@   modifies ghost.now, ghost.ctxDone
+//@   ensures ghost.now >= old(ghost.now)
+//@   ensures forall c ref :: c in old(ghost.ctxDone) ==> c in ghost.ctxDone
+//@   ensures result == nil ==> ghost.now >= arg1 || arg0 in ghost.ctxDone
+
+//@ func node.waitForBlockHeight
+//@   property C47
+//@   modifies ghost.now, ghost.ctxDone
+//@   ensures ghost.now >= old(ghost.now)
+//@   ensures forall c ref :: c in old(ghost.ctxDone) ==> c in ghost.ctxDone
+//@   ensures result == nil ==> ghost.now >= blockHeight || ctx in ghost.ctxDone
+
+//@ func dkgResultSubmitter.SubmitResult
+//@   property C47
+//@   requires memberIndex >= 1
+//@   requires !ghost.observedNotAwaiting
+//@   modifies ghost.now, ghost.ctxDone, ghost.observedNotAwaiting, ghost.refBlock
+//@   assert call:DistributedKeyGenerationChain.SubmitDKGResult : ghost.now >= ghost.refBlock + (memberIndex - 1) * dkgResultSubmissionDelayStepBlocks
+
+//@ func inactivityClaimSubmitter.SubmitClaim
+//@   property C47
+//@   requires memberIndex >= 1 && claim != nil && claim.Nonce != nil
+//@   modifies ghost.now, ghost.ctxDone, ghost.chainNonce, ghost.refBlock, alloc
+//@   assert call:InactivityClaimChain.SubmitInactivityClaim : ghost.now >= ghost.refBlock + (memberIndex - 1) * inactivityClaimSubmissionDelayStepBlocks
+
+// --- result approval slots (tbtc/dkg.go) ---
+
+//@ assume func DistributedKeyGenerationChain.DKGParameters
+//@   modifies alloc
+//@   ensures err == nil ==> result0 != nil && result0.ApprovePrecedencePeriodBlocks >= 1 && result0.ApprovePrecedencePeriodBlocks <= 4294967295 && result0.ChallengePeriodBlocks <= 4294967295
+
+//@ lemma approval-slots-distinct: forall P, Q, s, i, j int :: (Q > P && i >= 1 && j >= 1 && i != j) ==> ite(i == s, P, Q + (i - 1) * dkgResultApprovalDelayStepBlocks) != ite(j == s, P, Q + (j - 1) * dkgResultApprovalDelayStepBlocks)
+//@   property C47
+
+//@ func dkgExecutor.executeDkgValidation
+//@   property C47
+//@   requires submissionBlock <= 2305843009213693952 && result != nil
+//@   modifies ghost.now, ghost.ctxDone, ghost.observedNotAwaiting, alloc
+//@   lit 1
+//@     requires approvePeriodStartBlock > approvePrecedencePeriodStartBlock && approvePeriodStartBlock <= 4611686018427387904
+//@     modifies ghost.now, ghost.ctxDone, alloc
+//@     assert call:DistributedKeyGenerationChain.ApproveDKGResult : ghost.now >= ite(memberIndex == result.SubmitterMemberIndex, approvePrecedencePeriodStartBlock, approvePeriodStartBlock + (memberIndex - 1) * dkgResultApprovalDelayStepBlocks)
+
+// ---------------------------------------------------------------------------
+// C23: coordination windows
+
+//@ ghost lastWindowBlock int
+
+//@ func newCoordinationWindow
+//@   property C23
+//@   modifies alloc
+//@   ensures result != nil && !old(allocated(result)) && result.coordinationBlock == coordinationBlock
+
+//@ func coordinationWindow.index
+//@   property C23
+//@   ensures (result > 0) <==> (cw.coordinationBlock % coordinationFrequencyBlocks == 0 && cw.coordinationBlock > 0)
+//@   ensures result > 0 ==> result * coordinationFrequencyBlocks == cw.coordinationBlock
+//@   ensures coordinationFrequencyBlocks == 900
+
+//@ func coordinationWindow.isAfter
+//@   property C23
+//@   ensures result <==> (other == nil || cw.coordinationBlock > other.coordinationBlock)
+
+// The callback is the effect: a window is "started" when onWindowFn is invoked.
+//@ assume func watchCoordinationWindows:onWindowFn
+//@   requires [window-at-positive-multiple] arg0 != nil && arg0.coordinationBlock % 900 == 0 && arg0.coordinationBlock > 0
+//@   requires [window-strictly-later-than-any-started] arg0.coordinationBlock > ghost.lastWindowBlock
+//@   modifies ghost.lastWindowBlock
+//@   ensures ghost.lastWindowBlock == arg0.coordinationBlock
+
+//@ func watchCoordinationWindows
+//@   property C23
+//@   requires ghost.lastWindowBlock == 0
+//@   modifies ghost.lastWindowBlock, ghost.now, ghost.ctxDone, alloc
+//@   loop 1 invariant (lastWindow == nil && ghost.lastWindowBlock == 0) || (lastWindow != nil && lastWindow.coordinationBlock == ghost.lastWindowBlock)
+
+// ---------------------------------------------------------------------------
+// C22: coordination action checklist and leader
+
+//@ func coordinationExecutor.getActionsChecklist
+//@   property C22
+//@   deterministic
+//@   ensures windowIndex == 0 ==> len(result) == 0
+//@   ensures [redemption-first] windowIndex > 0 ==> len(result) >= 1 && result[0] == ActionRedemption
+//@   ensures [length] windowIndex > 0 ==> len(result) == 1 + ite(windowIndex % 4 == 0, 3, 0) + ite(rngFloat(wrap_i64(@be64(seed[0:8])), 0) < coordinationHeartbeatProbability, 1, 0)
+//@   ensures [every-fourth-window] windowIndex > 0 && windowIndex % 4 == 0 ==> result[1] == ActionDepositSweep && result[2] == ActionMovedFundsSweep && result[3] == ActionMovingFunds
+//@   ensures [heartbeat-last] windowIndex > 0 && rngFloat(wrap_i64(@be64(seed[0:8])), 0) < coordinationHeartbeatProbability ==> result[len(result) - 1] == ActionHeartbeat
+
+//@ func coordinationExecutor.getLeader
+//@   property C22
+//@   deterministic
+//@   requires ce.coordinatedWallet.signingGroupOperators.len >= 1
+//@   ensures [leader-is-an-operator] exists i int :: 0 <= i && i < len(ce.coordinatedWallet.signingGroupOperators) && ce.coordinatedWallet.signingGroupOperators[i] == result
+//@   loop 1 invariant forall k int :: 0 <= k && k < len(uniqueOperators) ==> uniqueOperators[k] in rangecoll1
+//@   loop 1 invariant forall x chain.Address :: x in visited1 ==> (exists k int :: 0 <= k && k < len(uniqueOperators) && uniqueOperators[k] == x)
+
+// ---------------------------------------------------------------------------
+// C24: coordination follower
+
+//@ ghost lastMsg ref
+//@ spec func actionTypeOf(p ref) WalletActionType
+
+//@ spec func signingOf(c ref) ref
+//@ assume func Chain.Signing
+//@   ensures result == @signingOf(recv)
+
+//@ assume func CoordinationProposal.ActionType
+//@   ensures result == @actionTypeOf(recv)
+
+//@ func wallet.membersByOperator
+//@   property C24
+//@   pure
+//@   requires len(w.signingGroupOperators) <= 255
+//@   ensures forall k int :: 0 <= k && k < len(result) ==> 1 <= result[k] && result[k] <= len(w.signingGroupOperators) && w.signingGroupOperators[result[k] - 1] == operator
+//@   ensures (exists i int :: 0 <= i && i < len(w.signingGroupOperators) && w.signingGroupOperators[i] == operator) ==> len(result) >= 1
+//@   loop 1 invariant forall k int :: 0 <= k && k < len(members) ==> 1 <= members[k] && members[k] <= i && w.signingGroupOperators[members[k] - 1] == operator
+//@   loop 1 invariant (exists j int :: 0 <= j && j < i && w.signingGroupOperators[j] == operator) ==> len(members) >= 1
+
+//@ func coordinationExecutor.executeFollowerRoutine
+//@   property C24
+//@   requires len(ce.coordinatedWallet.signingGroupOperators) <= 255
+//@   requires exists i int :: 0 <= i && i < len(ce.coordinatedWallet.signingGroupOperators) && ce.coordinatedWallet.signingGroupOperators[i] == leader
+//@   modifies ghost.lastMsg, ghost.ctxDone, alloc
+//@   recv-from messagesChan: modifies ghost.lastMsg; ghost.lastMsg == elem
+//@   ensures [accepted:is-coordination-message] err == nil ==> (let p = @payloadOf(ghost.lastMsg) :: let cm = unbox(p, *coordinationMessage) :: p != nil && dyntype(p) == typeid(*coordinationMessage) && result0 == cm.proposal)
+//@   ensures [accepted:sender-is-leader] err == nil ==> (let p = @payloadOf(ghost.lastMsg) :: let cm = unbox(p, *coordinationMessage) :: cm.senderID == ce.coordinatedWallet.membersByOperator(leader)[0])
+//@   ensures [accepted:valid-membership] err == nil ==> (let p = @payloadOf(ghost.lastMsg) :: let cm = unbox(p, *coordinationMessage) :: @validMembership(ce.membershipValidator, cm.senderID, @senderKey(ghost.lastMsg)))
+//@   ensures [accepted:this-window] err == nil ==> (let p = @payloadOf(ghost.lastMsg) :: let cm = unbox(p, *coordinationMessage) :: cm.coordinationBlock == coordinationBlock)
+//@   ensures [accepted:this-wallet] err == nil ==> (let p = @payloadOf(ghost.lastMsg) :: let cm = unbox(p, *coordinationMessage) :: cm.walletPublicKeyHash == ce.walletPublicKeyHash())
+//@   ensures [accepted:not-own-member] err == nil ==> (let p = @payloadOf(ghost.lastMsg) :: let cm = unbox(p, *coordinationMessage) :: !(exists i int :: 0 <= i && i < len(ce.membersIndexes) && ce.membersIndexes[i] == cm.senderID))
+//@   ensures [accepted:action-allowed] err == nil ==> (let p = @payloadOf(ghost.lastMsg) :: let cm = unbox(p, *coordinationMessage) :: exists i int :: 0 <= i && i < len(actionsAllowed) && actionsAllowed[i] == @actionTypeOf(cm.proposal))
+//@   ensures [timeout-blames-leader-idleness] err != nil ==> result0 == nil && len(result1) >= 1 && result1[len(result1) - 1] != nil && result1[len(result1) - 1].culprit == leader && result1[len(result1) - 1].faultType == FaultLeaderIdleness
+//@   ensures [fault-attribution] forall k int :: 0 <= k && k < len(result1) - ite(err != nil, 1, 0) ==> result1[k] != nil && ((result1[k].faultType == FaultLeaderImpersonation && (exists key []byte :: result1[k].culprit == @addrOfKey(@signingOf(ce.chain), key))) || (result1[k].faultType == FaultLeaderMistake && result1[k].culprit == leader))
+//@   loop 1 invariant forall k int :: 0 <= k && k < len(faults) ==> faults[k] != nil && allocated(faults[k]) && ((faults[k].faultType == FaultLeaderImpersonation && (exists key []byte :: faults[k].culprit == @addrOfKey(@signingOf(ce.chain), key))) || (faults[k].faultType == FaultLeaderMistake && faults[k].culprit == leader))
+//@   assert call:Signing.PublicKeyBytesToAddress : let cm = unbox(@payloadOf(ghost.lastMsg), *coordinationMessage) :: @validMembership(ce.membershipValidator, cm.senderID, @senderKey(ghost.lastMsg)) && cm.coordinationBlock == coordinationBlock && cm.senderID != ce.coordinatedWallet.membersByOperator(leader)[0]
+
+//@ func coordinationExecutor.walletPublicKeyHash
+//@   property C24
+//@   pure
+
+// ---------------------------------------------------------------------------
+// C11: retry-loop block windows
+
+//@ ghost loopStart int
+//@ ghost lastSeenBlock int
+
+//@ func signingAttemptMaximumBlocks
+//@   property C11 C46
+//@   inline
+//@ func dkgAttemptMaximumBlocks
+//@   property C11
+//@   inline
+
+//@ const-invariant signing-attempt-window: signingAttemptMaximumBlocks() == signingAttemptAnnouncementDelayBlocks + signingAttemptAnnouncementActiveBlocks + signingAttemptMaximumProtocolBlocks + signingAttemptCoolDownBlocks && signingAttemptCoolDownBlocks >= 1
+//@   property C11
+//@ const-invariant dkg-attempt-window: dkgAttemptMaximumBlocks() == dkgAttemptAnnouncementDelayBlocks + dkgAttemptAnnouncementActiveBlocks + dkgAttemptMaximumProtocolBlocks + dkgAttemptCoolDownBlocks && dkgAttemptCoolDownBlocks >= 1
+//@   property C11
+
+// The attempt function and the done-check listener are the points where an
+// attempt's window becomes observable: their preconditions are the oracle.
+//@ assume func signingRetryLoop.start:signingAttemptFn
+//@   requires [attempt-number-n-window] arg0 != nil && arg0.number >= 1 && arg0.startBlock == ghost.loopStart + (arg0.number - 1) * signingAttemptMaximumBlocks() + signingAttemptAnnouncementDelayBlocks + signingAttemptAnnouncementActiveBlocks && arg0.timeoutBlock == arg0.startBlock + signingAttemptMaximumProtocolBlocks
+//@   requires [next-attempt-starts-after-timeout] arg0.timeoutBlock < ghost.loopStart + arg0.number * signingAttemptMaximumBlocks()
+//@   requires [announcement-not-passed-when-checked] ghost.lastSeenBlock < arg0.startBlock
+//@ assume func signingDoneCheckStrategy.listen
+//@   requires [listen-window] attemptNumber >= 1 && attemptTimeoutBlock == ghost.loopStart + (attemptNumber - 1) * signingAttemptMaximumBlocks() + signingAttemptAnnouncementDelayBlocks + signingAttemptAnnouncementActiveBlocks + signingAttemptMaximumProtocolBlocks
+//@ assume func signingRetryLoop.start:getCurrentBlockFn
+//@   modifies ghost.lastSeenBlock
+//@   ensures err == nil ==> ghost.lastSeenBlock == result0
+//@ assume func signingRetryLoop.start:waitForBlockFn
+//@   modifies ghost.now, ghost.ctxDone
+//@   ensures ghost.now >= old(ghost.now)
+//@   ensures forall c ref :: c in old(ghost.ctxDone) ==> c in ghost.ctxDone
+//@   ensures result == nil ==> ghost.now >= arg1 || arg0 in ghost.ctxDone
+
+//@ func newSigningRetryLoop
+//@   property C11 C46
+//@   modifies alloc
+//@   ensures result != nil && !old(allocated(result)) && result.attemptCounter == 0 && result.attemptStartBlock == initialStartBlock
+
+//@ func signingRetryLoop.start
+//@   property C11
+//@   arith math
+//@   binds ghost.loopStart = srl.attemptStartBlock
+//@   requires srl.attemptCounter == 0
+//@   modifies srl.attemptCounter, srl.attemptStartBlock, ghost.lastSeenBlock, ghost.now, ghost.ctxDone, alloc
+//@   loop 1 invariant srl.attemptCounter >= 0 && srl.attemptStartBlock == ghost.loopStart + ite(srl.attemptCounter >= 1, srl.attemptCounter - 1, 0) * signingAttemptMaximumBlocks()
+
+//@ assume func dkgRetryLoop.start:dkgAttemptFn
+//@   requires [attempt-number-n-window] arg0 != nil && arg0.number >= 1 && arg0.startBlock == ghost.loopStart + (arg0.number - 1) * dkgAttemptMaximumBlocks() + dkgAttemptAnnouncementDelayBlocks + dkgAttemptAnnouncementActiveBlocks && arg0.timeoutBlock == arg0.startBlock + dkgAttemptMaximumProtocolBlocks
+//@   requires [next-attempt-starts-after-timeout] arg0.timeoutBlock < ghost.loopStart + arg0.number * dkgAttemptMaximumBlocks()
+//@ assume func dkgRetryLoop.start:waitForBlockFn
+//@   modifies ghost.now, ghost.ctxDone
+//@   ensures ghost.now >= old(ghost.now)
+//@   ensures forall c ref :: c in old(ghost.ctxDone) ==> c in ghost.ctxDone
+//@   ensures result == nil ==> ghost.now >= arg1 || arg0 in ghost.ctxDone
+
+//@ func dkgRetryLoop.start
+//@   property C11
+//@   arith math
+//@   binds ghost.loopStart = drl.attemptStartBlock
+//@   requires drl.attemptCounter == 0
+//@   modifies drl.attemptCounter, drl.attemptStartBlock, ghost.now, ghost.ctxDone, alloc
+//@   loop 1 invariant drl.attemptCounter >= 0 && drl.attemptStartBlock == ghost.loopStart + ite(drl.attemptCounter >= 1, drl.attemptCounter - 1, 0) * dkgAttemptMaximumBlocks()
+
+// ---------------------------------------------------------------------------
+// C46: wallet action deadlines nest inside the proposal validity window
+
+//@ const-invariant signing-loop-fits-single-message: signingAttemptsLimit * signingAttemptMaximumBlocks() <= 4294967295 && signingAttemptsLimit >= 1
+//@   property C46
+
+//@ const-invariant depositSweep-window: depositSweepProposalValidityBlocks >= depositSweepSigningTimeoutSafetyMarginBlocks && depositSweepProposalValidityBlocks - depositSweepSigningTimeoutSafetyMarginBlocks >= signingAttemptsLimit * signingAttemptMaximumBlocks() && depositSweepBroadcastTimeout <= depositSweepSigningTimeoutSafetyMarginBlocks * 12 * time.Second && depositSweepBroadcastTimeout > 0
+//@   property C46
+//@ type depositSweepAction
+//@   invariant self.signingTimeoutSafetyMarginBlocks == depositSweepSigningTimeoutSafetyMarginBlocks && self.broadcastTimeout == depositSweepBroadcastTimeout && self.proposalExpiryBlock == self.proposalProcessingStartBlock + depositSweepProposalValidityBlocks && self.proposalProcessingStartBlock <= 4611686018427387904
+//@ func DepositSweepProposal.ValidityBlocks
+//@   property C46
+//@   ensures result == depositSweepProposalValidityBlocks
+//@ func newDepositSweepAction
+//@   property C46
+//@   requires [expiry-is-start-plus-validity] proposalExpiryBlock == proposalProcessingStartBlock + depositSweepProposalValidityBlocks && proposalProcessingStartBlock <= 4611686018427387904
+//@   modifies alloc
+//@   ensures result != nil && !old(allocated(result))
+//@ func depositSweepAction.execute
+//@   property C46
+//@   assert call:walletTransactionExecutor.signTransaction : [signing-starts-no-earlier-than-action-start] arg2 >= dsa.proposalProcessingStartBlock
+//@   assert call:walletTransactionExecutor.signTransaction : [signing-ends-margin-before-expiry] arg3 + depositSweepSigningTimeoutSafetyMarginBlocks == dsa.proposalExpiryBlock
+//@   assert call:walletTransactionExecutor.signTransaction : [room-for-one-retry-loop] arg3 >= arg2 + signingAttemptsLimit * signingAttemptMaximumBlocks()
+//@   assert call:walletTransactionExecutor.broadcastTransaction : [broadcast-bounded-by-margin] arg2 > 0 && arg2 <= depositSweepSigningTimeoutSafetyMarginBlocks * 12 * time.Second
+//@ func node.handleDepositSweepProposal
+//@   property C46
+//@   requires [expiry-is-start-plus-validity] expiryBlock == startBlock + depositSweepProposalValidityBlocks && startBlock <= 4611686018427387904
+//@   modifies alloc
+
+//@ const-invariant redemption-window: redemptionProposalValidityBlocks >= redemptionSigningTimeoutSafetyMarginBlocks && redemptionProposalValidityBlocks - redemptionSigningTimeoutSafetyMarginBlocks >= signingAttemptsLimit * signingAttemptMaximumBlocks() && redemptionBroadcastTimeout <= redemptionSigningTimeoutSafetyMarginBlocks * 12 * time.Second && redemptionBroadcastTimeout > 0
+//@   property C46
+//@ type redemptionAction
+//@   invariant self.signingTimeoutSafetyMarginBlocks == redemptionSigningTimeoutSafetyMarginBlocks && self.broadcastTimeout == redemptionBroadcastTimeout && self.proposalExpiryBlock == self.proposalProcessingStartBlock + redemptionProposalValidityBlocks && self.proposalProcessingStartBlock <= 4611686018427387904
+//@ func RedemptionProposal.ValidityBlocks
+//@   property C46
+//@   ensures result == redemptionProposalValidityBlocks
+//@ func newRedemptionAction
+//@   property C46
+//@   requires [expiry-is-start-plus-validity] proposalExpiryBlock == proposalProcessingStartBlock + redemptionProposalValidityBlocks && proposalProcessingStartBlock <= 4611686018427387904
+//@   modifies alloc
+//@   ensures result != nil && !old(allocated(result))
+//@ func redemptionAction.execute
+//@   property C46
+//@   assert call:walletTransactionExecutor.signTransaction : [signing-starts-no-earlier-than-action-start] arg2 >= ra.proposalProcessingStartBlock
+//@   assert call:walletTransactionExecutor.signTransaction : [signing-ends-margin-before-expiry] arg3 + redemptionSigningTimeoutSafetyMarginBlocks == ra.proposalExpiryBlock
+//@   assert call:walletTransactionExecutor.signTransaction : [room-for-one-retry-loop] arg3 >= arg2 + signingAttemptsLimit * signingAttemptMaximumBlocks()
+//@   assert call:walletTransactionExecutor.broadcastTransaction : [broadcast-bounded-by-margin] arg2 > 0 && arg2 <= redemptionSigningTimeoutSafetyMarginBlocks * 12 * time.Second
+//@ func node.handleRedemptionProposal
+//@   property C46
+//@   requires [expiry-is-start-plus-validity] expiryBlock == startBlock + redemptionProposalValidityBlocks && startBlock <= 4611686018427387904
+//@   modifies alloc
+
+//@ const-invariant movingFunds-window: movingFundsProposalValidityBlocks >= movingFundsSigningTimeoutSafetyMarginBlocks && movingFundsProposalValidityBlocks - movingFundsSigningTimeoutSafetyMarginBlocks >= signingAttemptsLimit * signingAttemptMaximumBlocks() && movingFundsBroadcastTimeout <= movingFundsSigningTimeoutSafetyMarginBlocks * 12 * time.Second && movingFundsBroadcastTimeout > 0
+//@   property C46
+//@ type movingFundsAction
+//@   invariant self.signingTimeoutSafetyMarginBlocks == movingFundsSigningTimeoutSafetyMarginBlocks && self.broadcastTimeout == movingFundsBroadcastTimeout && self.proposalExpiryBlock == self.proposalProcessingStartBlock + movingFundsProposalValidityBlocks && self.proposalProcessingStartBlock <= 4611686018427387904
+//@ func MovingFundsProposal.ValidityBlocks
+//@   property C46
+//@   ensures result == movingFundsProposalValidityBlocks
+//@ func newMovingFundsAction
+//@   property C46
+//@   requires [expiry-is-start-plus-validity] proposalExpiryBlock == proposalProcessingStartBlock + movingFundsProposalValidityBlocks && proposalProcessingStartBlock <= 4611686018427387904
+//@   modifies alloc
+//@   ensures result != nil && !old(allocated(result))
+//@ func movingFundsAction.execute
+//@   property C46
+//@   assert call:walletTransactionExecutor.signTransaction : [signing-starts-no-earlier-than-action-start] arg2 >= mfa.proposalProcessingStartBlock
+//@   assert call:walletTransactionExecutor.signTransaction : [signing-ends-margin-before-expiry] arg3 + movingFundsSigningTimeoutSafetyMarginBlocks == mfa.proposalExpiryBlock
+//@   assert call:walletTransactionExecutor.signTransaction : [room-for-one-retry-loop] arg3 >= arg2 + signingAttemptsLimit * signingAttemptMaximumBlocks()
+//@   assert call:walletTransactionExecutor.broadcastTransaction : [broadcast-bounded-by-margin] arg2 > 0 && arg2 <= movingFundsSigningTimeoutSafetyMarginBlocks * 12 * time.Second
+//@ func node.handleMovingFundsProposal
+//@   property C46
+//@   requires [expiry-is-start-plus-validity] expiryBlock == startBlock + movingFundsProposalValidityBlocks && startBlock <= 4611686018427387904
+//@   modifies alloc
+
+//@ const-invariant movedFundsSweep-window: movedFundsSweepProposalValidityBlocks >= movedFundsSweepSigningTimeoutSafetyMarginBlocks && movedFundsSweepProposalValidityBlocks - movedFundsSweepSigningTimeoutSafetyMarginBlocks >= signingAttemptsLimit * signingAttemptMaximumBlocks() && movedFundsSweepBroadcastTimeout <= movedFundsSweepSigningTimeoutSafetyMarginBlocks * 12 * time.Second && movedFundsSweepBroadcastTimeout > 0
+//@   property C46
+//@ type movedFundsSweepAction
+//@   invariant self.signingTimeoutSafetyMarginBlocks == movedFundsSweepSigningTimeoutSafetyMarginBlocks && self.broadcastTimeout == movedFundsSweepBroadcastTimeout && self.proposalExpiryBlock == self.proposalProcessingStartBlock + movedFundsSweepProposalValidityBlocks && self.proposalProcessingStartBlock <= 4611686018427387904
+//@ func MovedFundsSweepProposal.ValidityBlocks
+//@   property C46
+//@   ensures result == movedFundsSweepProposalValidityBlocks
+//@ func newMovedFundsSweepAction
+//@   property C46
+//@   requires [expiry-is-start-plus-validity] proposalExpiryBlock == proposalProcessingStartBlock + movedFundsSweepProposalValidityBlocks && proposalProcessingStartBlock <= 4611686018427387904
+//@   modifies alloc
+//@   ensures result != nil && !old(allocated(result))
+//@ func movedFundsSweepAction.execute
+//@   property C46
+//@   assert call:walletTransactionExecutor.signTransaction : [signing-starts-no-earlier-than-action-start] arg2 >= mfsa.proposalProcessingStartBlock
+//@   assert call:walletTransactionExecutor.signTransaction : [signing-ends-margin-before-expiry] arg3 + movedFundsSweepSigningTimeoutSafetyMarginBlocks == mfsa.proposalExpiryBlock
+//@   assert call:walletTransactionExecutor.signTransaction : [room-for-one-retry-loop] arg3 >= arg2 + signingAttemptsLimit * signingAttemptMaximumBlocks()
+//@   assert call:walletTransactionExecutor.broadcastTransaction : [broadcast-bounded-by-margin] arg2 > 0 && arg2 <= movedFundsSweepSigningTimeoutSafetyMarginBlocks * 12 * time.Second
+//@ func node.handleMovedFundsSweepProposal
+//@   property C46
+//@   requires [expiry-is-start-plus-validity] expiryBlock == startBlock + movedFundsSweepProposalValidityBlocks && startBlock <= 4611686018427387904
+//@   modifies alloc
+
+//@ const-invariant heartbeat-window: heartbeatTotalProposalValidityBlocks >= heartbeatInactivityClaimValidityBlocks && heartbeatTotalProposalValidityBlocks - heartbeatInactivityClaimValidityBlocks >= signingAttemptsLimit * signingAttemptMaximumBlocks() && heartbeatInactivityClaimValidityBlocks > heartbeatTimeoutSafetyMarginBlocks && heartbeatTimeoutSafetyMarginBlocks >= 1
+//@   property C46
+//@ type heartbeatAction
+//@   invariant self.expiryBlock == self.startBlock + heartbeatTotalProposalValidityBlocks && self.startBlock <= 4611686018427387904
+//@ func HeartbeatProposal.ValidityBlocks
+//@   property C46
+//@   ensures result == heartbeatTotalProposalValidityBlocks
+//@ func newHeartbeatAction
+//@   property C46
+//@   requires [expiry-is-start-plus-validity] expiryBlock == startBlock + heartbeatTotalProposalValidityBlocks && startBlock <= 4611686018427387904
+//@   modifies alloc
+//@   ensures result != nil && !old(allocated(result))
+//@ func node.handleHeartbeatProposal
+//@   property C46
+//@   requires [expiry-is-start-plus-validity] expiryBlock == startBlock + heartbeatTotalProposalValidityBlocks && startBlock <= 4611686018427387904
+//@   modifies alloc
+
+// dispatch table of the proposal interface (each concrete method is verified above)
+//@ assume func CoordinationProposal.ValidityBlocks
+//@   ensures dyntype(recv) == typeid(*HeartbeatProposal) ==> result == heartbeatTotalProposalValidityBlocks
+//@   ensures dyntype(recv) == typeid(*DepositSweepProposal) ==> result == depositSweepProposalValidityBlocks
+//@   ensures dyntype(recv) == typeid(*RedemptionProposal) ==> result == redemptionProposalValidityBlocks
+//@   ensures dyntype(recv) == typeid(*MovingFundsProposal) ==> result == movingFundsProposalValidityBlocks
+//@   ensures dyntype(recv) == typeid(*MovedFundsSweepProposal) ==> result == movedFundsSweepProposalValidityBlocks
+
+//@ func coordinationWindow.endBlock
+//@   property C46
+//@   requires cw.coordinationBlock <= 2305843009213693952
+//@   ensures result == cw.coordinationBlock + coordinationDurationBlocks
+
+//@ func processCoordinationResult
+//@   property C46
+//@   requires result != nil && result.window != nil && result.window.coordinationBlock <= 2305843009213693952
+//@   modifies alloc
+
+//@ func walletTransactionExecutor.signTransaction
+//@   property C46
+//@   opt noframe 1
+//@   loop 1 invariant len(containers) == len(signatures)
+//@   assert call:withCancelOnBlock : [signing-context-ends-at-timeout] arg1 == signingTimeoutBlock
+//@   assert call:walletSigningExecutor.signBatch : [batch-starts-at-signing-start] arg2 == signingStartBlock
+
+//@ func signingExecutor.sign
+//@   property C46
+//@   opt noframe 1
+//@   requires startBlock <= 4611686018427387904 && se.signingAttemptsLimit <= 1000
+//@   lit 1
+//@     requires [retry-loop-window] loopTimeoutBlock == startBlock + se.signingAttemptsLimit * signingAttemptMaximumBlocks()
+//@     opt noframe 1
+//@     assert call:withCancelOnBlock@1 : [loop-context-ends-at-loop-timeout] arg1 == loopTimeoutBlock
+//@     assert call:newSigningRetryLoop : [loop-starts-at-signing-start] arg2 == startBlock
+
+// ---------------------------------------------------------------------------
+// C36 (heartbeat escalation) and the heartbeat part of C46
+
+//@ ghost hbUnstaking bool
+//@ ghost hbProposalValid bool
+//@ ghost hbSigned bool
+//@ ghost hbActive int
+//@ ghost hbInactive []group.MemberIndex
+
+// Observation points of one heartbeat execution (ghost flags record what the
+// action observed; the claim's precondition is the oracle of C36).
+//@ assume func heartbeatAction.isOperatorUnstaking
+//@   modifies ghost.hbUnstaking
+//@   ensures err == nil ==> ghost.hbUnstaking == result0
+//@ assume func WalletProposalValidatorChain.ValidateHeartbeatProposal
+//@   modifies ghost.hbProposalValid
+//@   ensures ghost.hbProposalValid == (result == nil)
+//@ assume func heartbeatSigningExecutor.sign
+//@   modifies ghost.hbSigned, ghost.hbActive, ghost.hbInactive, alloc
+//@   ensures ghost.hbSigned == (err == nil)
+//@   ensures err == nil ==> result1 != nil && ghost.hbActive == len(result1.activeMembers) && ghost.hbInactive == result1.inactiveMembers
+//@ assume func heartbeatInactivityClaimExecutor.claimInactivity
+//@   requires [not-unstaking] !ghost.hbUnstaking
+//@   requires [proposal-valid] ghost.hbProposalValid
+//@   requires [signing-succeeded-with-low-activity] ghost.hbSigned && ghost.hbActive < heartbeatSigningMinimumActiveMembers
+//@   requires [marked-as-heartbeat-failure] heartbeatFailed
+//@   requires [names-exactly-the-unready-members] inactiveMembersIndexes == ghost.hbInactive && len(inactiveMembersIndexes) > 0
+
+//@ type heartbeatFailureCounter
+//@   guarded_by mutex counters
+
+// Sequential specifications of the counter (the whole body is one critical section).
+//@ func heartbeatFailureCounter.increment
+//@   property C36
+//@   opt lock-no-havoc 1
+//@   modifies hfc.counters
+//@   ensures hfc.counters[walletPublicKey] == wrap_u64(ite(walletPublicKey in old(hfc.counters), old(hfc.counters)[walletPublicKey], 0) + 1)
+//@   ensures forall k string :: k != walletPublicKey ==> ((k in hfc.counters) <==> (k in old(hfc.counters))) && hfc.counters[k] == old(hfc.counters)[k]
+//@ func heartbeatFailureCounter.reset
+//@   property C36
+//@   opt lock-no-havoc 1
+//@   modifies hfc.counters
+//@   ensures (walletPublicKey in hfc.counters) && hfc.counters[walletPublicKey] == 0
+//@   ensures forall k string :: k != walletPublicKey ==> ((k in hfc.counters) <==> (k in old(hfc.counters))) && hfc.counters[k] == old(hfc.counters)[k]
+//@ func heartbeatFailureCounter.get
+//@   property C36
+//@   opt lock-no-havoc 1
+//@   ensures result == ite(walletPublicKey in hfc.counters, hfc.counters[walletPublicKey], 0)
+
+//@ func heartbeatAction.execute
+//@   property C36 C46
+//@   opt noframe 1
+//@   requires ha.failureCounter != nil
+//@   assert call:withCancelOnBlock@1 : [signing-ends-claim-validity-before-expiry] arg1 + heartbeatInactivityClaimValidityBlocks == ha.expiryBlock
+//@   assert call:heartbeatSigningExecutor.sign : [signing-starts-at-action-start] arg2 == ha.startBlock
+//@   assert call:withCancelOnBlock@2 : [claim-ends-safety-margin-before-expiry] arg1 + heartbeatTimeoutSafetyMarginBlocks == ha.expiryBlock
+//@   assert call:heartbeatInactivityClaimExecutor.claimInactivity : [run-of-at-least-three] ite(walletKey in ha.failureCounter.counters, ha.failureCounter.counters[walletKey], 0) >= heartbeatConsecutiveFailureThreshold && heartbeatConsecutiveFailureThreshold >= 3
+//@   ensures [counter-transition] forall k string :: (ite(k in ha.failureCounter.counters, ha.failureCounter.counters[k], 0) == ite(k in old(ha.failureCounter.counters), old(ha.failureCounter.counters)[k], 0)) || (ghost.hbSigned && !ghost.hbUnstaking && ghost.hbProposalValid && ghost.hbActive >= heartbeatSigningMinimumActiveMembers && ha.failureCounter.counters[k] == 0) || (ghost.hbSigned && !ghost.hbUnstaking && ghost.hbProposalValid && ghost.hbActive < heartbeatSigningMinimumActiveMembers && ha.failureCounter.counters[k] == wrap_u64(ite(k in old(ha.failureCounter.counters), old(ha.failureCounter.counters)[k], 0) + 1))
+
+// ---------------------------------------------------------------------------
+// C25: one action per wallet
+
+//@ ghost actionEnded bool
+//@ assume func walletAction.execute
+//@   modifies ghost.actionEnded
+//@   ensures ghost.actionEnded
+
+//@ type walletDispatcher
+//@   property C25
+//@   guarded_by actionsMutex actions
+//@   writers actions : newWalletDispatcher walletDispatcher.dispatch
+
+// Abstract transition system of the dispatcher: A = set of busy wallet keys,
+// R[k] = number of running action goroutines of wallet k. start(k) is what
+// dispatch does in its critical section (proved below: k not in A before, in A
+// after, goroutine started); end(k) is the deferred critical section of the
+// goroutine (k removed). The invariant R[k] == (k in A ? 1 : 0) is inductive.
+//@ lemma dispatcher-start-preserves-at-most-one: forall A set[string], A2 set[string], R mapof[string]int, R2 mapof[string]int, k string :: ((forall j string :: R[j] == ite(j in A, 1, 0)) && !(k in A) && (forall j string :: (j in A2) <==> (j in A || j == k)) && (forall j string :: R2[j] == ite(j == k, R[j] + 1, R[j]))) ==> (forall j string :: R2[j] == ite(j in A2, 1, 0))
+//@   property C25
+//@ lemma dispatcher-end-preserves-at-most-one: forall A set[string], A2 set[string], R mapof[string]int, R2 mapof[string]int, k string :: ((forall j string :: R[j] == ite(j in A, 1, 0)) && R[k] >= 1 && (forall j string :: (j in A2) <==> (j in A && j != k)) && (forall j string :: R2[j] == ite(j == k, R[j] - 1, R[j]))) ==> (forall j string :: R2[j] == ite(j in A2, 1, 0))
+//@   property C25
+
+//@ func walletDispatcher.dispatch
+//@   property C25
+//@   opt lock-no-havoc 1
+//@   modifies wd.actions, alloc
+//@   ensures [busy-refused-nothing-changes] result != nil ==> wd.actions == old(wd.actions)
+//@   ensures [accepted-marks-exactly-one-free-wallet-busy] result == nil ==> (exists k string :: !(k in old(wd.actions)) && (k in wd.actions) && (forall j string :: j != k ==> ((j in wd.actions) <==> (j in old(wd.actions)))))
+//@   lit 1
+//@     requires [goroutine-started-only-for-the-slot-just-taken] (key in wd.actions) && !(key in old(wd.actions))
+//@     opt noframe 1
+//@     binds ghost.actionEnded = false
+//@     assert call:walletAction.execute : [action-executed-once-while-holding-the-slot] !ghost.actionEnded
+//@     assert call:Mutex.Lock : [slot-released-only-after-the-action-ended] ghost.actionEnded
+//@     assert call:Mutex.Unlock : [slot-released-on-every-exit] !(key in wd.actions)
+
+// ---------------------------------------------------------------------------
+// C35: signing done check
+
+// Parameters of the attempt being listened to (logical variables shared by
+// listen, its goroutine and checkAllDone).
+//@ ghost doneMembers []group.MemberIndex
+//@ ghost doneMessage int
+//@ ghost doneAttempt int
+//@ ghost doneTimeout int
+
+//@ spec func okDone(sdc *signingDoneCheck, m *signingDoneMessage, id group.MemberIndex) bool
+
+//@ type signingDoneCheck
+//@   property C35
+//@   guarded_by doneSignersMutex doneSigners
+//@   writers doneSigners : signingDoneCheck.listen
+//@   monitor doneSignersMutex forall id group.MemberIndex :: (id in self.doneSigners) ==> (self.doneSigners[id] != nil && self.doneSigners[id].senderID == id && (exists i int :: 0 <= i && i < len(ghost.doneMembers) && ghost.doneMembers[i] == id) && bigval(self.doneSigners[id].message) == ghost.doneMessage && self.doneSigners[id].attemptNumber == ghost.doneAttempt && self.doneSigners[id].endBlock <= ghost.doneTimeout && self.doneSigners[id].signature != nil)
+
+//@ func signingDoneCheck.isValidDoneMessage
+//@   property C35
+//@   opt unguarded-read doneSigners
+//@   requires doneMessage != nil && message != nil
+//@   ensures [accepts-only-attempt-members] result ==> (exists i int :: 0 <= i && i < len(attemptMembersIndexes) && attemptMembersIndexes[i] == doneMessage.senderID)
+//@   ensures [accepts-only-valid-membership] result ==> @validMembership(sdc.membershipValidator, doneMessage.senderID, senderPublicKey)
+//@   ensures [accepts-only-this-message-and-attempt] result ==> bigval(doneMessage.message) == bigval(message) && doneMessage.attemptNumber == attemptNumber
+//@   ensures [accepts-only-in-time-with-signature] result ==> doneMessage.endBlock <= attemptTimeoutBlock && doneMessage.signature != nil
+//@   ensures [one-message-per-member] result ==> !(doneMessage.senderID in sdc.doneSigners)
+
+//@ func signingDoneCheck.listen
+//@   property C35
+//@   opt unguarded-write doneSigners
+//@   opt noframe 1
+//@   requires message != nil
+//@   binds ghost.doneMembers = attemptMembersIndexes
+//@   binds ghost.doneMessage = bigval(message)
+//@   binds ghost.doneAttempt = attemptNumber
+//@   binds ghost.doneTimeout = attemptTimeoutBlock
+//@   lit 2
+//@     requires message != nil && attemptMembersIndexes == ghost.doneMembers && bigval(message) == ghost.doneMessage && attemptNumber == ghost.doneAttempt && attemptTimeoutBlock == ghost.doneTimeout
+//@     opt noframe 1
+
+//@ func signingDoneCheck.checkAllDone
+//@   property C35
+//@   opt noframe 1
+//@   ensures [not-done-unless-count-matches] result2 && result3 == nil ==> sdc.expectedSignersCount == len(sdc.doneSigners)
+//@   ensures [every-confirmation-is-from-an-attempt-member-for-this-attempt] result2 && result3 == nil ==> (forall id group.MemberIndex :: (id in sdc.doneSigners) ==> ((exists i int :: 0 <= i && i < len(ghost.doneMembers) && ghost.doneMembers[i] == id) && bigval(sdc.doneSigners[id].message) == ghost.doneMessage && sdc.doneSigners[id].attemptNumber == ghost.doneAttempt && sdc.doneSigners[id].endBlock <= ghost.doneTimeout))
+//@   ensures [same-signature-from-everyone] result2 && result3 == nil ==> result0 != nil && (forall id group.MemberIndex :: (id in sdc.doneSigners) ==> (sdc.doneSigners[id].signature == result0.Signature || result0.Signature.Equals(sdc.doneSigners[id].signature)))
+//@   ensures [end-block-is-the-latest] result2 && result3 == nil ==> (forall id group.MemberIndex :: (id in sdc.doneSigners) ==> sdc.doneSigners[id].endBlock <= result1) && ((exists id group.MemberIndex :: id in sdc.doneSigners) ==> (exists id group.MemberIndex :: (id in sdc.doneSigners) && sdc.doneSigners[id].endBlock == result1))
+//@   ensures !result2 ==> result0 == nil && result3 == nil
+//@   loop 1 invariant forall id group.MemberIndex :: (id in visited1) ==> (signature != nil && (rangecoll1[id].signature == signature || signature.Equals(rangecoll1[id].signature)) && rangecoll1[id].endBlock <= latestEndBlock)
+//@   loop 1 invariant (forall id group.MemberIndex :: !(id in visited1)) ==> (signature == nil && latestEndBlock == 0)
+//@   loop 1 invariant (exists id group.MemberIndex :: id in visited1) ==> (exists id group.MemberIndex :: (id in visited1) && rangecoll1[id].endBlock == latestEndBlock)
+
+//@ func signingDoneCheck.waitUntilAllDone
+//@   property C35
+//@   opt noframe 1
+//@   ensures [reports-only-what-checkAllDone-found] err == nil ==> result0 != nil
+
+// ---------------------------------------------------------------------------
+// C37: event deduplication
+
+//@ func deduplicator.notifyDKGStarted
+//@   property C37
+//@   requires newDKGSeed != nil
+//@   binds ghost.cacheSeen = false
+//@   modifies ghost.cacheAdds, ghost.cacheLastAdd, ghost.cacheLastKey, ghost.cacheLastCache
+//@   ensures [proceeds-only-as-the-one-inserting-caller] result ==> ghost.cacheAdds == old(ghost.cacheAdds) + 1 && ghost.cacheLastAdd && ghost.cacheLastCache == d.dkgSeedCache && ghost.cacheLastKey == big2str(bigval(newDKGSeed))
+//@   ensures [duplicate-only-if-seen-or-the-atomic-insert-failed] !result ==> (ghost.cacheAdds == old(ghost.cacheAdds) && ghost.cacheSeen) || (ghost.cacheAdds == old(ghost.cacheAdds) + 1 && !ghost.cacheLastAdd && ghost.cacheLastCache == d.dkgSeedCache && ghost.cacheLastKey == big2str(bigval(newDKGSeed)))
+
+//@ func deduplicator.notifyDKGResultSubmitted
+//@   property C37
+//@   requires newDKGResultSeed != nil
+//@   binds ghost.cacheSeen = false
+//@   modifies ghost.cacheAdds, ghost.cacheLastAdd, ghost.cacheLastKey, ghost.cacheLastCache
+//@   ensures [proceeds-only-as-the-one-inserting-caller] result ==> ghost.cacheAdds == old(ghost.cacheAdds) + 1 && ghost.cacheLastAdd && ghost.cacheLastCache == d.dkgResultHashCache
+//@   ensures [duplicate-only-if-seen-or-the-atomic-insert-failed] !result ==> (ghost.cacheAdds == old(ghost.cacheAdds) && ghost.cacheSeen) || (ghost.cacheAdds == old(ghost.cacheAdds) + 1 && !ghost.cacheLastAdd && ghost.cacheLastCache == d.dkgResultHashCache)
+//@   ensures [key-is-the-separated-triple] ghost.cacheLastKey == big2str(bigval(newDKGResultSeed)) + ":" + hexenc(newDKGResultHash[0:32]) + ":" + itoa(wrap_i64(newDKGResultBlock))
+
+//@ func deduplicator.notifyWalletClosed
+//@   property C37
+//@   binds ghost.cacheSeen = false
+//@   modifies ghost.cacheAdds, ghost.cacheLastAdd, ghost.cacheLastKey, ghost.cacheLastCache
+//@   ensures [proceeds-only-as-the-one-inserting-caller] result ==> ghost.cacheAdds == old(ghost.cacheAdds) + 1 && ghost.cacheLastAdd && ghost.cacheLastCache == d.walletClosedCache && ghost.cacheLastKey == hexenc(WalletID[0:32])
+//@   ensures [duplicate-only-if-seen-or-the-atomic-insert-failed] !result ==> (ghost.cacheAdds == old(ghost.cacheAdds) && ghost.cacheSeen) || (ghost.cacheAdds == old(ghost.cacheAdds) + 1 && !ghost.cacheLastAdd && ghost.cacheLastCache == d.walletClosedCache && ghost.cacheLastKey == hexenc(WalletID[0:32]))
+
+// Key injectivity. The string facts are trusted (alphabets: Text(16) of a
+// non-negative integer is [0-9a-f]+, hex.EncodeToString is [0-9a-f]*, Itoa is
+// -?[0-9]+; none contains ':'); the lemma over them is checked by SMT.
+//@ spec func nosep(s string) bool
+//@ axiom text16-has-no-colon: forall v int :: @nosep(big2str(v))
+//@ axiom hex-has-no-colon: forall b []byte :: @nosep(hexenc(b))
+//@ axiom itoa-has-no-colon: forall n int :: @nosep(itoa(n))
+//@ axiom text16-injective: forall v, w int :: big2str(v) == big2str(w) ==> v == w
+//@ axiom hex-injective-on-32-bytes: forall a, b [32]byte :: hexenc(a[0:32]) == hexenc(b[0:32]) ==> a == b
+//@ axiom itoa-injective: forall n, m int :: itoa(n) == itoa(m) ==> n == m
+//@ axiom separated-concat-injective: forall a, b, c, a2, b2, c2 string :: (@nosep(a) && @nosep(b) && @nosep(c) && @nosep(a2) && @nosep(b2) && @nosep(c2) && a + ":" + b + ":" + c == a2 + ":" + b2 + ":" + c2) ==> (a == a2 && b == b2 && c == c2)
+//@ lemma dkg-result-key-injective: forall s, s2 int, h, h2 [32]byte, n, n2 int :: (@nosep(big2str(s)) && big2str(s) + ":" + hexenc(h[0:32]) + ":" + itoa(n) == big2str(s2) + ":" + hexenc(h2[0:32]) + ":" + itoa(n2)) ==> (s == s2 && h == h2 && n == n2)
+//@   property C37
